@@ -5,6 +5,7 @@
 // This is the edge  Query(B) from "cached = A"  of ZoneProc.tla (invariant HistoryIndependent) instantiated for every
 // zone of the database and every pair of years, rather than for one representative per argument class.
 //   pairdrv <basic|extended> <i0> <i1> <y0> <y1> <stepDays>
+//   pairdrv btables <i0> <i1> <y0> <y1>     cache of the basic processor after init(year) (BasicProc.tla binding)
 //   pairdrv tables <i0> <i1> <y0> <y1>      finished per-year tables of the extended processor (ExtProc.tla binding)
 // stdout: one JSON line per mismatch (at most one per zone x B x kind) and a final {"done":..} line.
 #include <stdio.h>
@@ -103,6 +104,37 @@ static int tables_extended(int i0, int i1, int y0, int y1) {
   return 0;
 }
 
+// btables: the cache of a never-used BasicZoneProcessor after init(year) (binding of BasicProc.tla)
+static int tables_basic(int i0, int i1, int y0, int y1) {
+  for (int i = i0; i < i1 && i < zonedb::kZoneRegistrySize; i++) {
+    const basic::ZoneInfo* zi = zonedb::kZoneRegistry[i];
+    std::string out = "{\"zone\":" + jstr((const char*) BasicZone(zi).name()) + ",\"years\":{";
+    for (int y = y0; y <= y1; y++) {
+      void* mem = calloc(1, sizeof(BasicZoneProcessor));
+      BasicZoneProcessor* p = new (mem) BasicZoneProcessor();
+      TimeZone tz = TimeZone::forZoneInfo(zi, p);
+      long before = ace_time_verif_basic_dropped;
+      tz.getUtcOffset((acetime_t) (days_from_civil(y, 7, 2) * 86400L));
+      char b[160];
+      snprintf(b, sizeof b, "%s\"%d\":{\"filled\":%d,\"dropped\":%ld,\"rows\":[", y == y0 ? "" : ",", y, (int) p->mIsFilled, ace_time_verif_basic_dropped - before);
+      out += b;
+      for (int k = 0; k < p->mNumTransitions; k++) {
+        const basic::Transition& t = p->mTransitions[k];
+        snprintf(b, sizeof b, "%s[%ld,%d,%d,", k ? "," : "", (long) t.startEpochSeconds, t.offsetMinutes, t.deltaMinutes);
+        out += b; out += jstr(t.abbrev);
+        snprintf(b, sizeof b, ",%d,%d]", t.yearTiny + 2000, t.month);
+        out += b;
+      }
+      out += "]}";
+      p->~BasicZoneProcessor();
+      free(mem);
+    }
+    out += "}}";
+    puts(out.c_str());
+  }
+  return 0;
+}
+
 template <typename ZI, typename ZP, typename ZONE>
 static int run(const ZI* const* reg, int n, int i0, int i1, int y0, int y1, int step) {
   long pairs = 0, calls = 0, bad = 0;
@@ -161,6 +193,7 @@ static int run(const ZI* const* reg, int n, int i0, int i1, int y0, int y1, int 
 }
 
 int main(int argc, char** argv) {
+  if (argc >= 6 && !strcmp(argv[1], "btables")) return tables_basic(atoi(argv[2]), atoi(argv[3]), atoi(argv[4]), atoi(argv[5]));
   if (argc >= 6 && !strcmp(argv[1], "tables")) return tables_extended(atoi(argv[2]), atoi(argv[3]), atoi(argv[4]), atoi(argv[5]));
   if (argc < 7) return 2;
   int i0 = atoi(argv[2]), i1 = atoi(argv[3]), y0 = atoi(argv[4]), y1 = atoi(argv[5]), step = atoi(argv[6]);
